@@ -258,13 +258,22 @@ func WindowFrameSet(partition Partition, expr parser.AnalyticClause) []WindowFra
 			if !framePosition.Unbounded.IsEmpty() {
 				idx = 0
 			} else {
-				idx = current - framePosition.Offset
+				// an offset beyond the partition addresses no further row; limiting it keeps the arithmetic in range
+				offset := framePosition.Offset
+				if length < offset {
+					offset = length
+				}
+				idx = current - offset
 			}
 		case parser.FOLLOWING:
 			if !framePosition.Unbounded.IsEmpty() {
 				idx = length - 1
 			} else {
-				idx = current + framePosition.Offset
+				offset := framePosition.Offset
+				if length < offset {
+					offset = length
+				}
+				idx = current + offset
 			}
 		}
 
